@@ -144,9 +144,16 @@ macro_rules! window_adv {
 }
 
 fn check_adv<const L: usize>(r: Result<Window<u8>, TokErr>, arr: &[u8; L], i: u64) {
+	// the empty window serializes as (no elements, index 0): that form is the only accepted one of length 0
+	let empty_form = L == 0 && i == 0;
 	match r {
 		Err(_) => {
-			assert!(i >= L as u64, "well-formed (buf, index) was rejected");
+			assert!(i >= L as u64 && !empty_form, "well-formed (buf, index) was rejected");
+		}
+		Ok(w) if empty_form => {
+			assert!(w.is_empty() && w.len() == 0, "restored empty window is empty");
+			assert!(w.get(0).is_none() && w.iter().next().is_none(), "restored empty window yields nothing");
+			std::mem::forget(w);
 		}
 		Ok(w) => {
 			assert!(i < L as u64, "oldest-index outside the buffer accepted");
@@ -160,7 +167,7 @@ fn check_adv<const L: usize>(r: Result<Window<u8>, TokErr>, arr: &[u8; L], i: u6
 			std::mem::forget(w);
 		}
 	}
-	kani::cover!(i == 0, "index 0 (the empty buffer must still be rejected)");
+	kani::cover!(i == 0, "index 0 (len 0: the serialized empty window)");
 	kani::cover!(i == L as u64, "index == len");
 	kani::cover!(i == (L as u64).wrapping_sub(1), "last valid index (len 0: u64::MAX)");
 	kani::cover!(i > 255, "index that does not fit PeriodType");
